@@ -81,6 +81,9 @@ func universeRequests(rng *rand.Rand, s Sem, big bool) []reqSpec {
 							if !big && unrelated && rng.Intn(3) != 0 {
 								continue
 							}
+							if big && rng.Intn(6) != 0 { // the full product has ~19 000 requests: keep a seeded sixth
+								continue
+							}
 							h := http.Header{}
 							v++
 							setHeader(h, hOrigin, o, v)
